@@ -240,8 +240,13 @@ def run(ctx):
         ctx.case(('angle-dec', step))
         if Fraction(v) != Fraction(360 * step, 256):
             ctx.violation('Angle.read(%d) = %r' % (step, v), {'step': step}, key={'angle-step': step})
-    for base, BT, bits in (('i8', B.Byte, 5), ('i16', B.Short, 12), ('i32', B.Integer, 5)):
-        FP = B.FixedPoint(BT, bits)
+    # all instances are built FIRST (several scalings over the same integer type, as user code may do),
+    # then used: an instance must keep the scaling it was constructed with
+    combos = [('i8', B.Byte, 5), ('i16', B.Short, 12), ('i32', B.Integer, 5), ('i16', B.Short, 5),
+              ('i32', B.Integer, 12), ('i8', B.Byte, 2), ('i16', B.Short, 12)]
+    built = [B.FixedPoint(BT, bits) for _, BT, bits in combos]
+    built[2] = B.FixedPointInteger          # the module's own constant (Integer, 5), created at import
+    for (base, BT, bits), FP in zip(combos, built):
         w = {'i8': 1, 'i16': 2, 'i32': 4}[base]
         lo, hi = -(1 << (8 * w - 1)), 1 << (8 * w - 1)
         wires = list(range(lo, hi)) if w == 1 else [lo, lo + 1, -1, 0, 1, hi - 1] + [rng.randrange(lo, hi) for _ in range(ctx.scale(400, 4000))]
